@@ -51,6 +51,7 @@ SNIPPETS = [
     "_l1()", "_l2()", "_l3()", "_l4()", "_l5()", "_l6()", "_l7()",
     "np.full_like(np.array([1.5, 2.5]), np.nan)", "np.zeros_like(np.array([1, 2, 3]), shape=2)", "np.round(np.array([1.23456, -0.5, 2.5]), 2)",
     "pd.Series([0.123456789012, 1.5]).round(decimals=9).tolist()",
+    "np.abs(np.diff(np.array([[1.0, 5.0], [4.0, 3.0], [0.0, 6.0]]), axis=0))", "np.diff(np.array([[1, 5, 2], [4, 3, 9]]), axis=1)", "_u1()",
     "np.ceil(3 / 2)", "int(np.ceil(0 / 2))", "np.array([2, 9, 4])[0::2]", "np.array([5, 7, 9])[np.array([True, False, True])] - 2",
     # --- pandas
     "pd.DataFrame({'a': [1, 2, 3], 'b': [1.5, 2.5, 3.5]}).to_dict('records')", "len(pd.DataFrame())", "list(pd.DataFrame().columns)",
@@ -103,6 +104,9 @@ def _p17():
     df = pd.concat([pd.DataFrame({'a': [1.0, 2.0]}), pd.DataFrame({'a': [3.0, 4.0]})], axis=0)
     m = np.array([True, False, False, True])
     return [df.loc[df.index[m]]['a'].tolist(), df[m]['a'].tolist(), list(df.index[m]), df.loc[[1]]['a'].tolist()]
+def _u1():
+    r, d = np.abs(np.diff(np.array([[1.0, 5.0], [4.0, 3.0], [0.0, 6.0]]), axis=0))
+    return [r.tolist(), d.tolist()]
 def _p1():
     df = pd.DataFrame({'a': [1.0, 2.0, 3.0]}); v = df['a'].values
     try:
